@@ -9,7 +9,10 @@ import json, sys
 from pathlib import Path
 
 rnd, first = sys.argv[1], int(sys.argv[2])
+only = next((a.split("=", 1)[1].split(",") for a in sys.argv if a.startswith("--props=")), None)
+focus = next((a.split("=", 1)[1] for a in sys.argv if a.startswith("--focus=")), "")
 props = [json.loads(l) for l in open("/verif/properties.jsonl")]
+props = [p for p in props if only is None or p["id"] in only]
 for p in props:
     pid = p["id"]
     earlier = []
@@ -25,7 +28,7 @@ for p in props:
 You work ONLY in the scratch git worktree `/tmp/wt/{pid}` (a checkout of pixee/codemodder-python; sources under `src/`, tests
 under `tests/`). Do not read or write `/repo` or `/verif`. Write your results under `/tmp/wt_out/{pid}/`.
 Python: `/venv/bin/python` (has the repo's dependencies; run with `PYTHONPATH=/tmp/wt/{pid}/src` so that YOUR worktree's sources are
-imported, not the installed ones). The real CLI: `PYTHONPATH=/tmp/wt/{pid}/src PATH=/venv/bin:$PATH /venv/bin/python -m codemodder <dir> --codemod-include <id> --output out.json`
+imported, not the installed ones). The real CLI (there is no `__main__`, so `-m codemodder` does not work): `PYTHONPATH=/tmp/wt/{pid}/src PATH=/venv/bin:$PATH /venv/bin/python -c "import sys; from codemodder.codemodder import main; sys.argv=['codemodder', '<dir>', '--codemod-include', '<id>', '--output', 'out.json']; main()"`
 (semgrep works offline). No network.
 
 ## The property (this is all you are given)
@@ -55,6 +58,8 @@ Changes already known for this property — do NOT repeat their mechanism or the
 property, a different file/function, a different kind of fault:
 
 {chr(10).join(earlier)}
+
+{focus}
 
 Prefer sites and mechanisms that are far from these: other codemods, other helper layers (result parsing, file selection, diffing,
 dependency management, CLI, report building, pipelines), other clauses of the statement. Subtle value-level slips are welcome, and so
